@@ -2,8 +2,8 @@ import KrakenModel.Util.KV
 /-
   Model of utils/cache.BlobMemoryCache (C13, used by C01's CAStore model).
 
-  `total` is the `totalSize uint64` field: every addition is taken modulo 2^64 exactly as the Go
-  code computes it (`c.totalSize+size > c.config.MaxSize` can wrap).  `entries` is the `entries`
+  `total` is the `totalSize uint64` field (`maxSize < 2^64`; the only addition happens after the
+  overflow-safe admission check, so it cannot wrap).  `entries` is the `entries`
   map as an association list (newest binding first).  The order of a Go map range is not modelled:
   `expired` returns the names in list order and `removeBatch` is order independent because
   `decrementTotalSize` is truncated subtraction.
@@ -43,10 +43,11 @@ def init (maxSize : Nat) : State := { maxSize := maxSize }
 
 def get (s : State) (n : Name) : Option Entry := KV.get s.entries n
 
-/-- `TryReserve`: `if c.totalSize+size > c.config.MaxSize { return false }; c.totalSize += size` on uint64 -/
+/-- `TryReserve`: `if size > MaxSize || totalSize > MaxSize-size { return false }; totalSize += size`.
+The comparison does not add, so nothing wraps; on success `totalSize + size ≤ MaxSize < 2^64`. -/
 def tryReserve (s : State) (size : Nat) : State × Bool :=
-  if (s.total + size) % two64 > s.maxSize then (s, false)
-  else ({ s with total := (s.total + size) % two64 }, true)
+  if size > s.maxSize ∨ s.total > s.maxSize - size then (s, false)
+  else ({ s with total := s.total + size }, true)
 
 /-- `ReleaseReservation`: refuses (logs) when `size > totalSize` -/
 def release (s : State) (size : Nat) : State :=
